@@ -33,5 +33,20 @@ SPEC = {
     ],
 }
 MUTATIONS = """
-(filled in after the dry-runs)
+Dry-runs on a scratch copy (VERIF_REPO=/var/tmp/mC08 ./check C08 quick):
+ M1 incrementality.go: drop the `for _, secret := range target.Secrets` loop -> exit 1: C08_facts_ok / C08_coverage and one
+    partial stop checking (27/30), failing input `pair … secrets=61 ; … secrets=62` (corpus basics) reported as
+    unexplained-rulehash-collision.
+ M3 hashMap: write `ep + eps[ep]` (no "=") -> extractor exits 3 (hashMap shape), thorough correspondence: 22 disagreements,
+    failing input (env {"k":"vw"} vs {"kv":"w"}, generator mutation env-kv-shift) -> exit 1.
+ M4 drop `hashOptionalBool(h, target.Sandbox)` -> exit 1: coverage broken (27/30), failing input `pair … ; … flags=sandbox`.
+ M5 harmless: rename h -> hasher2, loop variable dep -> d, move `outs := …` to the top -> exit 0 (see phase-2 log).
+ M8 hashBool(h, target.IsBinary) -> hashOptionalBool(…): all 30 theorems still check (single-attribute results survive), but the
+    pre-image changed: 21 disagreements against the pinned Go transcription -> exit 1, correspondence-broken no-failing-input-found.
+ M9 build_target.go AllSources: `allBuildInputs(target.Sources, nil)` (named sources no longer hashed) -> facts unreadable,
+    thorough correspondence + failing input (two targets differing in a named source) -> exit 1.
+ M10 drop `h.Write([]byte(os.Getenv(env)))` -> facts unreadable (pass_env idiom), failing input: same target under two callers with
+    a different pass_env value, same rule hash -> exit 1.
+A reordering of the writes inside ruleHash is *not* treated as harmless: it changes every rule hash (the pinned Go transcription
+used for classification no longer matches) and is reported as correspondence-broken.
 """
